@@ -8,6 +8,7 @@ import (
 	"errors"
 	"fmt"
 	"io"
+	"os"
 	"path/filepath"
 	"slices"
 	"strings"
@@ -287,6 +288,10 @@ func tryGetRedumpKey(fsys afero.Fs, requestedPath string) ([]byte, error) {
 		defer keyFile.Close()
 		return ReadKeyFile(keyFile)
 	}
+	if !keyFileAbsent(err) {
+		// the key may exist but is unreadable now: serving the image without it would hand out ciphertext
+		return nil, err
+	}
 
 	// try .dkey in REDKEY directory (instead of PS3ISO)
 	pathElems[ps3IsoIdx] = redkeyDir
@@ -296,8 +301,16 @@ func tryGetRedumpKey(fsys afero.Fs, requestedPath string) ([]byte, error) {
 		defer keyFile.Close()
 		return ReadKeyFile(keyFile)
 	}
+	if keyFileAbsent(err) {
+		return nil, afero.ErrFileNotFound
+	}
 
 	return nil, err
+}
+
+// keyFileAbsent tells whether error of opening key file means that there is no such file at all.
+func keyFileAbsent(err error) bool {
+	return errors.Is(err, os.ErrNotExist) || errors.Is(err, syscall.ENOTDIR) || errors.Is(err, syscall.ENAMETOOLONG)
 }
 
 func deriveISOKey(targetKey, data1Key []byte) error {
